@@ -358,7 +358,7 @@ func (t *ImmutableTree) getRangeProof(keyStart, keyEnd []byte, limit int) (proof
 	_stop := false
 	if limit == 1 {
 		_stop = true // case 1
-	} else if keyEnd != nil && bytes.Compare(cpIncr(left.key), keyEnd) >= 0 {
+	} else if keyEnd != nil && bytes.Compare(lexSucc(left.key), keyEnd) >= 0 {
 		_stop = true // case 2
 	}
 	if _stop {
@@ -369,7 +369,7 @@ func (t *ImmutableTree) getRangeProof(keyStart, keyEnd []byte, limit int) (proof
 	}
 
 	// Get the key after left.key to iterate from.
-	afterLeft := cpIncr(left.key)
+	afterLeft := lexSucc(left.key)
 
 	// Traverse starting from afterLeft, until keyEnd or the next leaf
 	// after keyEnd.
@@ -426,7 +426,7 @@ func (t *ImmutableTree) getRangeProof(keyStart, keyEnd []byte, limit int) (proof
 				values = append(values, node.value)
 				// Terminate if we've found keyEnd-1 or after.
 				// We don't want to fetch any leaves for it.
-				if keyEnd != nil && bytes.Compare(cpIncr(node.key), keyEnd) >= 0 {
+				if keyEnd != nil && bytes.Compare(lexSucc(node.key), keyEnd) >= 0 {
 					return true
 				}
 
@@ -461,7 +461,7 @@ func (t *ImmutableTree) getRangeProof(keyStart, keyEnd []byte, limit int) (proof
 // GetWithProof gets the value under the key if it exists, or returns nil.
 // A proof of existence or absence is returned alongside the value.
 func (t *ImmutableTree) GetWithProof(key []byte) (value []byte, proof *RangeProof, err error) {
-	proof, _, values, err := t.getRangeProof(key, cpIncr(key), 2)
+	proof, _, values, err := t.getRangeProof(key, lexSucc(key), 2)
 	if err != nil {
 		return nil, nil, errors.Wrap(err, "constructing range proof")
 	}
@@ -504,4 +504,9 @@ func (tree *MutableTree) GetVersionedRangeWithProof(startKey, endKey []byte, lim
 		return t.GetRangeWithProof(startKey, endKey, limit)
 	}
 	return nil, nil, nil, errors.Wrap(ErrVersionDoesNotExist, "")
+}
+
+// lexSucc returns the immediate successor of key in lexicographic byte order.
+func lexSucc(key []byte) []byte {
+	return append(cp(key), 0x00)
 }
